@@ -630,14 +630,13 @@ fn find_tsig_algorithm_or_write_error(
         Some(algorithm)
     } else {
         response.set_rcode(Rcode::NOTAUTH);
-        response
-            .set_tsig(
-                writer::TsigMode::Unsigned {
-                    algorithm: tsig_rr.algorithm().to_owned(),
-                },
-                PreparedTsigRr::new_from_read(tsig_rr, now, TSIG_FUDGE, ExtendedRcode::BADKEY),
-            )
-            .unwrap();
+        set_tsig_or_truncate(
+            response,
+            writer::TsigMode::Unsigned {
+                algorithm: tsig_rr.algorithm().to_owned(),
+            },
+            PreparedTsigRr::new_from_read(tsig_rr, now, TSIG_FUDGE, ExtendedRcode::BADKEY),
+        );
         None
     }
 }
@@ -662,14 +661,13 @@ fn find_tsig_key_or_write_error<'k>(
         Some(key)
     } else {
         response.set_rcode(Rcode::NOTAUTH);
-        response
-            .set_tsig(
-                writer::TsigMode::Unsigned {
-                    algorithm: tsig_rr.algorithm().to_owned(),
-                },
-                PreparedTsigRr::new_from_read(tsig_rr, now, TSIG_FUDGE, ExtendedRcode::BADKEY),
-            )
-            .unwrap();
+        set_tsig_or_truncate(
+            response,
+            writer::TsigMode::Unsigned {
+                algorithm: tsig_rr.algorithm().to_owned(),
+            },
+            PreparedTsigRr::new_from_read(tsig_rr, now, TSIG_FUDGE, ExtendedRcode::BADKEY),
+        );
         None
     }
 }
@@ -731,13 +729,30 @@ fn verify_tsig_and_write_tsig_rr(
         };
 
     response.set_rcode(rcode);
-    response
-        .set_tsig(
-            mode,
-            PreparedTsigRr::new_from_read(tsig_rr, now, TSIG_FUDGE, tsig_err),
-        )
-        .unwrap();
-    rcode == Rcode::NOERROR
+    let tsig_added = set_tsig_or_truncate(
+        response,
+        mode,
+        PreparedTsigRr::new_from_read(tsig_rr, now, TSIG_FUDGE, tsig_err),
+    );
+    tsig_added && rcode == Rcode::NOERROR
+}
+
+/// Adds a TSIG RR to the response and returns `true`. The RR may not
+/// fit within the response's size limit (over UDP, a question plus a
+/// TSIG RR with very long key and algorithm names can exceed 512
+/// octets). In that case no TSIG-bearing response is possible at all,
+/// so we send what a client needs to retry over TCP, where there is
+/// room: an empty response with the TC bit set. `false` is returned
+/// and the request must not be processed any further.
+fn set_tsig_or_truncate(response: &mut Writer, mode: writer::TsigMode, rr: PreparedTsigRr) -> bool {
+    if response.set_tsig(mode, rr).is_ok() {
+        true
+    } else {
+        response.clear_rrs();
+        response.set_rcode(Rcode::NOERROR);
+        response.set_tc(true);
+        false
+    }
 }
 
 ////////////////////////////////////////////////////////////////////////
